@@ -146,6 +146,9 @@ def _run(prop, tier, ti, seed, a, scratch, t_start) -> int:
                    'wall_s': round(j.result.get('wall_s', 0.0), 2), 'excluded_known': list(j.excluded)}
             if st == 'confirmed':
                 confirmed.append(j)
+            elif st == 'inconclusive' and j.excluded and 'PRE_UNSAT' in (detail or ''):
+                rec['verdict'] = 'known-finding-only'
+                rec['reason'] = 'the known finding(s) cover every input of this condition'
             elif st == 'inconclusive':
                 rec['reason'] = detail
                 inconclusive.append((j, detail))
@@ -174,7 +177,7 @@ def _run(prop, tier, ti, seed, a, scratch, t_start) -> int:
                     artefacts.append((j, args, rdetail))
                     os.remove(rp)
                 else:
-                    hit = next((f for f in known if finding_matches(f, j.cond.name, args)), None)
+                    hit = next((f for f in known if finding_matches(f, j.cond.name, {**j.cond.fixed, **args})), None)
                     if hit is not None and hit['id'] not in j.excluded and len(j.excluded) < 6:
                         rec['verdict'] = 'known-finding'
                         rec['finding'] = hit['id']
